@@ -3,12 +3,133 @@ package main
 // Contract-level stubs for code that is not encoded (listed in evidence as part of the claim).
 
 import (
+	"encoding/json"
+	"go/types"
+
 	"golang.org/x/tools/go/ssa"
 )
 
 func addMiscIntrinsics(t map[string]Intrinsic) {
-	_ = ssa.NaiveForm
 }
 
+func (m *Machine) concreteBytes(v Value) ([]byte, bool) {
+	var terms []*Term
+	switch x := v.(type) {
+	case []Value:
+		for _, e := range x {
+			terms = append(terms, e.(*Term))
+		}
+	case string:
+		return []byte(x), true
+	case *SymStr:
+		terms = x.B
+	default:
+		return nil, false
+	}
+	b := make([]byte, len(terms))
+	for i, t := range terms {
+		if !t.IsConst() {
+			return nil, false
+		}
+		b[i] = byte(t.Val)
+	}
+	return b, true
+}
+
+func (m *Machine) bytesValue(b []byte) []Value {
+	r := make([]Value, len(b))
+	for i, x := range b {
+		r[i] = m.tf.Const(8, uint64(x))
+	}
+	return r
+}
+
+func isNamed(t types.Type, pkg, name string) bool {
+	n, ok := t.(*types.Named)
+	return ok && n.Obj().Pkg() != nil && n.Obj().Pkg().Path() == pkg && n.Obj().Name() == name
+}
+
+// encoding/json is reflection-driven and not interpreted. The stubs run the real encoding/json natively on concrete
+// json.RawMessage / string / []byte values (the contract: Encode performs exactly one Write of the encoding followed by
+// a newline; Unmarshal is a function of its input bytes and copies what it keeps).
 func addStubIntrinsics(t map[string]Intrinsic) {
+	t["encoding/json.NewEncoder"] = func(m *Machine, fr *Frame, fn *ssa.Function, a []Value) Value {
+		m.noteStub("encoding/json.NewEncoder (stub)")
+		cell := new(Value)
+		*cell = m.zero(derefType(fn.Signature.Results().At(0).Type()))
+		m.side("jsonenc")[cell] = a[0]
+		return cell
+	}
+	t["(*encoding/json.Encoder).Encode"] = func(m *Machine, fr *Frame, fn *ssa.Function, a []Value) Value {
+		m.noteStub("encoding/json.Encoder.Encode (native on concrete value, one Write)")
+		w, _ := m.side("jsonenc")[a[0].(*Value)].(IfaceV)
+		v := a[1].(IfaceV)
+		var native interface{}
+		switch {
+		case v.T == nil:
+			native = nil
+		case isNamed(v.T, "encoding/json", "RawMessage"):
+			b, ok := m.concreteBytes(v.V)
+			if !ok {
+				m.unsupported("json.Encode of symbolic RawMessage")
+			}
+			native = json.RawMessage(b)
+		default:
+			switch x := v.V.(type) {
+			case string:
+				native = x
+			case *Term:
+				if !x.IsConst() {
+					m.unsupported("json.Encode of symbolic scalar")
+				}
+				native = x.SVal()
+			default:
+				m.unsupported("json.Encode of %v", v.T)
+			}
+		}
+		out, err := json.Marshal(native)
+		if err != nil {
+			return m.newErrorString(err.Error())
+		}
+		out = append(out, '\n')
+		r, ok := m.callMethod(fr, w, "Write", m.bytesValue(out))
+		if !ok {
+			m.unsupported("json encoder target without Write")
+		}
+		if e := r.(TupleV)[1].(IfaceV); e.T != nil {
+			return e
+		}
+		return IfaceV{}
+	}
+	t["encoding/json.Unmarshal"] = func(m *Machine, fr *Frame, fn *ssa.Function, a []Value) Value {
+		m.noteStub("encoding/json.Unmarshal (native on concrete bytes)")
+		data, ok := m.concreteBytes(a[0])
+		if !ok {
+			m.unsupported("json.Unmarshal of symbolic bytes")
+		}
+		v := a[1].(IfaceV)
+		pt, isPtr := v.T.(*types.Pointer)
+		if !isPtr {
+			return m.newErrorString("json: Unmarshal(non-pointer)")
+		}
+		target := v.V.(*Value)
+		switch {
+		case isNamed(pt.Elem(), "encoding/json", "RawMessage"):
+			var rm json.RawMessage
+			if err := json.Unmarshal(data, &rm); err != nil {
+				return m.newErrorString(err.Error())
+			}
+			*target = m.bytesValue(append([]byte{}, rm...))
+			return IfaceV{}
+		case isString(pt.Elem()):
+			var s string
+			if err := json.Unmarshal(data, &s); err != nil {
+				return m.newErrorString(err.Error())
+			}
+			*target = s
+			return IfaceV{}
+		}
+		m.unsupported("json.Unmarshal into %v", pt.Elem())
+		return nil
+	}
 }
